@@ -169,17 +169,21 @@ func TermiosRestored() bool { return nativeTermiosRestored() }
 func CaptureVT(w int) *VT {
 	v := NewVT(w)
 	if Symbolic() {
-		StdoutHook = func(fd int, s string) { v.Write(s, ASCIIWidth) }
+		StdoutHook = func(fd int, s string) { v.Write(s, VTWidth) }
 	}
 	return v
 }
+
+// VTWidth is the display width the captured terminal gives a rune (harnesses whose
+// alphabet has wide characters replace it).
+var VTWidth = ASCIIWidth
 
 // FinishVT brings the model up to date with all output produced so far.
 func FinishVT(v *VT) {
 	if !Symbolic() {
 		nativeDrain()
 		*v = *NewVT(v.W)
-		v.Write(NativeOutput(), ASCIIWidth)
+		v.Write(NativeOutput(), VTWidth)
 	}
 }
 
